@@ -99,7 +99,8 @@ type scen struct {
 	P     int
 	cont  bool
 	tsbd  int
-	snr   int
+	snr   int      // tl.Cfg.SNR: -1 not given, tl.SNRImplicit = snr_-1, else the explicit startNumber
+	subs  []string // generated subtitle options (timesubsstpp_<langs>, timesubswvtt_<langs>)
 	ast   int64 // availabilityStartTime (start_<ast>), 0 = default
 	seed  int64
 	probe bool // P chosen as a value that must or may be rejected
@@ -330,13 +331,16 @@ func Main(args []string) error {
 			if g.p >= 1800 && tsbd > 10 {
 				tsbd = 10 // PD <= 2 s: keep the number of periods per MPD small
 			}
-			snr := -1
-			if (gi+vi)%5 == 2 {
-				snr = 5
+			// startNumber option: none, explicit 0 / 1 / 7, snr_-1 (no attribute in the MPD = the DASH default 1)
+			snr := []int{-1, 7, tl.SNRImplicit, 0, 1}[(gi+vi)%5]
+			if v.thumbs && gi == 0 {
+				snr = tl.SNRImplicit // the thumbnail AdaptationSet is a $Number$ template under every MPD type
 			}
+			// generated subtitle AdaptationSets (1-2 languages, stpp / wvtt / both)
+			subs := [][]string{nil, {"timesubsstpp_en,sv"}, nil, {"timesubswvtt_en"}, nil, {"timesubsstpp_en", "timesubswvtt_sv"}}[(gi+2*vi+1)%6]
 			var ss []scen
 			for _, mi := range g.modes {
-				ss = append(ss, scen{v: v, mode: modes[mi], P: g.p, cont: (gi+mi+vi)%2 == 1, tsbd: tsbd, snr: snr, seed: rng.Int63()})
+				ss = append(ss, scen{v: v, mode: modes[mi], P: g.p, cont: (gi+mi+vi)%2 == 1, tsbd: tsbd, snr: snr, subs: subs, seed: rng.Int63()})
 			}
 			addJob(ss...)
 			if *thorough && gi%8 == 0 {
@@ -386,8 +390,9 @@ func Main(args []string) error {
 		a, rt := s.v.a, s.v.a.Video
 		r := rand.New(rand.NewSource(s.seed))
 		c1 := tl.Cfg{Mode: s.mode, SNR: s.snr, TSBD: s.tsbd, AST: s.ast}
+		c1.Extra = append([]string{}, s.subs...)
 		cP := c1
-		cP.Extra = []string{fmt.Sprintf("periods_%d", s.P)}
+		cP.Extra = append(append([]string{}, s.subs...), fmt.Sprintf("periods_%d", s.P))
 		if s.cont {
 			cP.Extra = append(cP.Extra, "continuous_1")
 		}
@@ -397,7 +402,8 @@ func Main(args []string) error {
 				uniform = false
 			}
 		}
-		emit(tl.HeaderE(idx, a, rt, cP, tr.E{"P": s.P, "cont": s.cont, "segms": s.v.segms, "mpd": s.v.mpd, "uniform": uniform, "probe": s.probe, "repeat": repeat}))
+		emit(tl.HeaderE(idx, a, rt, cP, tr.E{"P": s.P, "cont": s.cont, "segms": s.v.segms, "mpd": s.v.mpd, "uniform": uniform, "probe": s.probe, "repeat": repeat,
+			"snropt": map[int]string{-1: "none", tl.SNRImplicit: "implicit"}[s.snr] + map[bool]string{true: fmt.Sprint(s.snr), false: ""}[s.snr >= 0], "subs": strings.Join(s.subs, "/")}))
 		pd := int64(3600 / s.P)
 		pdMS := pd * 1000
 		W := int64(s.tsbd) * 1000
@@ -658,7 +664,7 @@ func Main(args []string) error {
 			nAcc++
 			nSeg += segsHere
 			nReq += segsHere
-			distinct[fmt.Sprintf("%s|%s|%s|%d|%v|%d|%s", a.Name, s.v.mpd, s.mode, s.P, s.cont, s.ast, in.cls)] = true
+			distinct[fmt.Sprintf("%s|%s|%s|%d|%v|%d|%d|%v|%s", a.Name, s.v.mpd, s.mode, s.P, s.cont, s.ast, s.snr, s.subs, in.cls)] = true
 			if len(samples) < 6 && len(mP.Periods) > 1 && r.Intn(20) == 0 {
 				samples = append(samples, map[string]any{"url": urlP + q, "periods": len(mP.Periods), "class": in.cls, "segments_listed_and_fetched": segsHere})
 			}
